@@ -1000,6 +1000,12 @@ def gen_life(r, n, tier):
     yield "life r30.120 m0 t100 tls:hsclose/serve E,-,D,-,E,-,-,L2,R"
     yield "life r30.120 m0 t100 tls:serve L1,E,-,R,R,S"
     yield "life r30.120 m0 t100 tls:hsgarbage E,-,-,X"
+    # a zero minimum delay is still a wait state: after a lost connection WaitAfterDisconnect(0) is
+    # announced before the next attempt (no user action during the zero-length waits: they would race)
+    yield "life r0.50 m0 t100 close/serve E,-,-,-,-,R"
+    yield "life r0.50 m0 t100 garbage/close/serve E,-,-,-,-,-,-,-,R"
+    yield "life r0.0 m0 t100 serve1/serve E,-,-,R,-,-,-,-,R"
+    yield "life r0.80 m0 t100 refuse/close/refuse/serve E,-,-,-,-,-,-,-,-,R"
     # long failure runs (>= 300 attempts): nothing that counts attempts may wrap
     yield "life r1.8 m0 t100 refuse E,-*598"
     yield "life r1.2 m0 t100 refuse*300/serve/refuse E,-*600,-,R,D,E,-,-,-,-"
@@ -1279,6 +1285,11 @@ def gen_net(r, n, tier):
         yield f"net tcp m{variant_m} any c1.127.0.0.1,Z1.20000," + ",".join(["L"] * 11) + ",c2.127.0.0.1,q2,L,c3.127.0.0.1,q3,q2,S,p2,p3"
     yield "net tcp m4 any c1.127.0.0.1,c2.127.0.0.1,Z1.20000,Z2.20000," + ",".join(["L"] * 20) + ",c3.127.0.0.1,q3,H,p3"
     yield "net tcp m1 any c1.127.0.0.1,Z1.20000," + ",".join(["L"] * 9) + ",c2.127.0.0.1,q2,c3.127.0.0.1,q3,p2"
+    # a shutdown requested while the server's command queue (8 slots) is full or nearly full, with the
+    # handle kept alive, must not be lost: the task ends, connections are refused afterwards
+    for k in (0, 7, 8):
+        yield f"net tcp m2 any J{k},c1.127.0.0.1,p1"
+    yield "net tls m2 any J8,c1.127.0.0.1"
     for _ in range(n):
         variant = r.pick(["tcp", "tcp", "tcp", "tls", "tlsa"])
         m = r.pick([0, 1, 2, 3, 4])
@@ -1359,6 +1370,9 @@ def gen_tls(r, n, tier):
     seq_cases = [f"tls srvseq 12 ca 1 both {q}" for q in seqs]
     seq_cases.append("tls srvseq 12 ca 0 both cli_operator,cli_norole,cli_viewer")
     seq_cases.append("tls srvseq 12 ss 1 both ss_a,ss_b,ss_a ss_a")
+    # a peer that connects and stays silent in its handshake must not keep valid peers from being served
+    seq_cases.append("tls srvseq 12 ca 1 both silent,cli_operator,silent,cli_viewer")
+    seq_cases.append("tls srvseq 13 ca 0 13 silent,silent,cli_operator")
     if tier == "thorough":
         for c in cases:
             yield c
@@ -1378,7 +1392,8 @@ def gen_tls(r, n, tier):
     for c in cases:
         tok = c.split(" ")
         valid = tok[-1] in ("cli_operator",) or (tok[1] == "cli" and tok[5] == "srv_ok" and tok[6] == "test.com") \
-            or (tok[1] == "srv" and tok[3] == "ss" and tok[6] == "ss_a")
+            or (tok[1] == "srv" and tok[3] == "ss" and tok[6] == "ss_a") \
+            or (tok[1] == "cli" and tok[3] in ("ss", "ssd") and tok[5] == "ss_b" and tok[-1] == "ss_b")
         if valid:
             yield c
     for c in cases:
@@ -1865,10 +1880,26 @@ def gen_cl_task(r, n, tier, focus="mix"):
         yield sc.line()
 
 
+def gen_cl_block_fixed():
+    """a shutdown request that has to wait for queue capacity (`Channel::shutdown` is `send().await`)
+    must not be lost: once the queue drains the task ends with `shutdown`; order of events forced"""
+    rep = lambda tx, v: "X" + hx(mbap(tx, 1, bytes([3, 2]) + be16(v)))
+    for q in (1, 2):
+        reqs = [f"R0.b{j}.rh.1.1000.{j}.1" for j in range(q + 1)]      # one in flight + q queued
+        steps = ["N", "E0"] + reqs + ["S0"] + [rep(j, 100 + j) for j in range(q + 1)] + ["A10", "A10"]
+        yield f"cl t d000 q{q} m0 {','.join(steps)}"
+        # the same with callback-style requests and a timeout instead of the first reply
+        reqs = [f"C0.b{j}.rh.1.50.{j}.1" for j in range(q + 1)]
+        steps = ["N", "E0"] + reqs + ["S0", "A50"] + [rep(j, 7) for j in range(1, q + 1)] + ["A60", "A10"]
+        yield f"cl t d000 q{q} m0 {','.join(steps)}"
+
+
 def gen_cl_block(r, n, tier):
     """C10: more async submissions than the queue holds (senders wait for capacity): every
     request must still be queued and completed, in order; fixed shape so that the order of
     completions is forced (one reply / one timeout per step)"""
+    for c in gen_cl_block_fixed():
+        yield c
     for _ in range(n):
         q = r.pick([1, 1, 2, 3])
         k = q + r.rng(2, 4)
